@@ -27,7 +27,9 @@ from ..impl import make, quiet, exc_enum, MODES, sorted_live
 
 RULE = ("cases = (base class, base hyper-parameters, beta_lower, tau, phi, data set, call history over "
         "{fit, partial_fit, predict}, match-tracking mode, epsilon, veto table); non-trivial when the history "
-        "contains a second winner or a pruning round; distinct by hash of all of these")
+        "contains a second winner or a pruning round; distinct by hash of all of these.  Plus histories in which "
+        "beta_lower / tau / phi are re-assigned by attribute assignment between training calls (oracle alone): "
+        "non-trivial when a second winner learns after a re-assignment")
 
 UNREC = 1000000
 
@@ -476,13 +478,77 @@ def make_case(ctx, i: int):
     return dict(i=i, cls=cls, mode=mode, eps=eps, spec=spec, X=X, calls=calls, vt=vt, tau=tau, phi=phi, style=style)
 
 
+def make_reconf_case(ctx, i: int, seed=None):
+    """Histories in which TopoART's own hyper-parameters (beta_lower, tau, phi) are re-assigned by plain attribute
+    assignment (`est.beta_lower = v`, routed into `est.params` by BaseART.__setattr__) on an estimator that has already
+    trained, followed by more training (fit: restarts; partial_fit: continues).  Calls ("set", name, value) sit between
+    the training calls; every configuration along the history is valid (beta >= beta_lower, tau >= phi >= 1).  The
+    Lean line carries one (tau, phi) per history, so these cases are judged by the oracle alone."""
+    seed = ctx.seed if seed is None else seed
+    r = gen.rng_for(seed, "C14-reconf", i)
+    cls = specs.HAS_BETA[i % 4]
+    mode = MODES[(i // 4) % 5]
+    tau = r.randint(2, 8)
+    phi = r.randint(1, tau)
+    d = r.randint(1, 3)
+    floats = r.random() < 0.4
+    has_reset = r.random() < 0.3
+    eps = r.choice([0.0, 2.0 ** -20, 2.0 ** -10, 1e-10, 0.125])
+    bspec = specs.elem_spec(r, cls, specs.width(cls, d) if cls != "FuzzyART" else d)
+    if r.random() < 0.75:                       # low vigilance: second winners before and after the re-assignment
+        bspec["rho"] = r.choice([0.0, 0.25]) if not (cls == "FuzzyART" and bspec.get("alpha") == 0.0) else 0.25
+        if cls in ("HypersphereART", "EllipsoidART") and bspec["rho"] == 0.0 and bspec.get("alpha") == 0.0:
+            bspec["alpha"] = 2.0 ** -10
+    beta = bspec["beta"]
+    rates = [beta, beta / 2, beta / 4, beta / 8, 0.0]
+    beta_lower = r.choice(rates)
+    nseg = r.randint(2, 3)
+    seg = [r.randint(max(2, tau), 3 * tau) for _ in range(nseg)]
+    total = sum(seg)
+    X = specs.elem_data(r, cls, total, d, floats=floats)
+    calls, lo = [], 0
+    cur = {"beta_lower": float(beta_lower), "tau": tau, "phi": phi}
+    for s_, n in enumerate(seg):
+        if s_ > 0:
+            names = ["beta_lower"] if r.random() < 0.6 else r.sample(["beta_lower", "tau", "phi"], r.randint(1, 3))
+            for nm in names:
+                if nm == "beta_lower":
+                    v = float(r.choice([t for t in rates if t != cur[nm]] or rates))
+                elif nm == "tau":                       # each single assignment leaves a valid configuration
+                    v = r.randint(max(2, cur["phi"]), 9)
+                else:
+                    v = r.randint(1, cur["tau"])
+                cur[nm] = v
+                calls.append(("set", nm, v))
+        kind = "fit" if (s_ == 0 and r.random() < 0.7) or (s_ > 0 and r.random() < 0.5) else "pfit"
+        if kind == "fit":
+            calls.append(("fit", 0, lo + n) if r.random() < 0.5 else ("fit", lo, lo + n))
+        else:
+            q = lo
+            for p in gen.compositions(r, n):
+                calls.append(("pfit", q, q + p))
+                q += p
+        lo += n
+    calls.append(("pred", 0, min(total, 4)))
+    nsteps = sum(hi - lo_ for kd, lo_, hi in calls if kd in ("fit", "pfit"))
+    vt = gen.veto_table(r, nsteps, nsteps + 1) if has_reset else None
+    spec = {"cls": "TopoART", "base_module": bspec, "beta_lower": float(beta_lower), "tau": tau, "phi": phi}
+    return dict(i=i, cls=cls, mode=mode, eps=eps, spec=spec, X=X, calls=calls, vt=vt, tau=tau, phi=phi,
+                style="reconf", reconf=True, seed=seed)
+
+
 def run_case(ctx, case: dict):
     """drive the implementation; returns (protocol line, per-call expectations) or None"""
     cov = ctx.cov
     cls, mode, eps, spec, X, calls, vt = (case[k] for k in ("cls", "mode", "eps", "spec", "X", "calls", "vt"))
     tau, phi = case["tau"], case["phi"]
     has_reset = vt is not None
+    reconf = bool(case.get("reconf"))
     rep = {"case": case["i"], "spec": spec, "X": X, "calls": calls, "mode": mode, "eps": eps, "veto": vt}
+    if reconf:
+        rep["reconf"], rep["seed"] = True, case["seed"]
+    reassigned: list = []          # hyper-parameters re-assigned so far (by attribute assignment)
+    seconds_before = 0             # second-winner updates before the first re-assignment
     try:
         m = make(spec)
     except Exception as e:
@@ -494,7 +560,7 @@ def run_case(ctx, case: dict):
     parts = []
     nontrivial = False
     for kd, lo, hi in calls:
-        B = X[lo:hi]
+        B = X[lo:hi] if kd != "set" else None
         if kd == "pred":
             xids = [rec.xi(x) for x in B]
             try:
@@ -506,6 +572,29 @@ def run_case(ctx, case: dict):
                 if len(m.W) == 0:
                     cov.hit("predict-on-emptied-model-raises(F14,C08)")
             parts.append("pred " + (",".join(map(str, xids)) if xids else "-"))
+            continue
+        if kd == "set":
+            # plain attribute assignment of one of TopoART's own hyper-parameters; from here on the statement is read
+            # with the configuration the estimator REPORTS (get_params), which the generator keeps valid
+            name, value = lo, hi
+            trained = rec.g > 0
+            try:
+                with quiet():
+                    setattr(m, name, value)
+                    reported = dict(m.get_params())
+                    type(m).validate_params(reported)
+            except Exception as e:
+                ctx.issue("violation", f"TopoART[{cls}].setattr({name}):{exc_enum(e)}",
+                          f"assigning {name}={value!r} (a valid configuration) raised {e!r}", rep)
+                return None
+            tau, phi = reported["tau"], reported["phi"]
+            if reported.get(name) == value:
+                reassigned.append(name)
+                cov.hit(f"reassign:{name}" + (":after-training" if trained else ":before-training"))
+            # a second winner may now legitimately learn a different weight from the same (x, w)
+            for blk in rec.tab.values():
+                for e in blk["e"].values():
+                    e[3] = None
             continue
         entry = "fit" if kd == "fit" else "partial_fit"
         rec.steps = []
@@ -548,9 +637,17 @@ def run_case(ctx, case: dict):
                 if not st["prune"][1]["Wv"]:
                     wiped = True
             presented = base_rows + k + 1 if kd == "pfit" else k + 1
-            oracle_step(ctx, rec, st, post, mode, has_reset, entry, cls, rep, presented, wiped)
+            oracle_step(ctx, rec, st, post, mode, has_reset, entry + ("[after-reassignment]" if reassigned else ""),
+                        cls, rep, presented, wiped)
             if any(cc is not None and rr >= 0 for (cc, rr, _) in st["updates"]):
-                nontrivial = True
+                nontrivial = nontrivial or not reconf
+                if reconf and not reassigned:
+                    seconds_before += 1
+                elif reconf:
+                    nontrivial = True
+                    cov.hit("second-winner-after-reassignment:" + entry)
+                    if seconds_before and "beta_lower" in reassigned:
+                        cov.hit("second-winner-before-and-after-beta_lower-reassignment")
             if has_reset and any((not a) and mb for (_, a), (_, mb, _) in zip(st["resets"], st["visits"])):
                 cov.hit(f"veto-with-tracking:{mode}")       # a category that passed was vetoed
             if has_reset and any((not a) and not mb for (_, a), (_, mb, _) in zip(st["resets"], st["visits"])):
@@ -577,6 +674,10 @@ def run_case(ctx, case: dict):
                       f"{cls} {spec['base_module']})", rep)
             cov.case((cls, spec, X.tolist(), calls, mode, eps, vt), False)
             return None
+    if reconf:
+        # no model line: the Lean history carries one (tau, phi) and one lower rate per (x, w)
+        cov.case((cls, spec, X.tolist(), calls, mode, eps, vt), nontrivial)
+        return None
     if rec.conflicts:
         ctx.issue("diff", f"topo:{cls}:kernel-table", "; ".join(rec.conflicts[:3]), rep)
         return None
@@ -686,6 +787,9 @@ def run(ctx):
     outs = run_driver(lines)
     for line, out, (case, expect, rep) in zip(lines, outs, meta):
         compare(ctx, case, line, out, expect, rep)
+    # hyper-parameters re-assigned by attribute assignment between training calls (oracle alone)
+    for i in range(ctx.scale(160, 2000)):
+        run_case(ctx, make_reconf_case(ctx, i))
     ctx.trusted.append("kernel tables: base-module kernel results interned by bytes at the call boundary (harness)")
     ctx.assumptions.append("weights are compared by value through interning; arithmetic of the kernels is C03's subject")
 
@@ -694,7 +798,8 @@ def replay(ctx, payload):
     rep = payload.get("replay") or {}
     if "case" not in rep:
         return 0
-    case = make_case(ctx, int(rep["case"]))
+    case = (make_reconf_case(ctx, int(rep["case"]), rep.get("seed")) if rep.get("reconf")
+            else make_case(ctx, int(rep["case"])))
     res = run_case(ctx, case)
     if res:
         line, expect, rp = res
